@@ -33,7 +33,7 @@ def history_configs(rnd, n):
         ci = rnd.sample(INTEG, rnd.choice([1, 2]))
         pfs = rnd.choice([[], [], rnd.sample(fast_dh, rnd.choice([1, 2]))])
         ike_dh = rnd.sample(fast_dh, rnd.choice([1, 2]))
-        order = rnd.choice(['same', 'reversed'])
+        order = rnd.choice(['same', 'reversed', 'subset'])
         base = dict(v6=rnd.random() < 0.4, auth=rnd.choice(['psk', 'psk', 'rsa']), mode=rnd.choice(['transport', 'tunnel']),
                     proto=proto, ip_proto=rnd.choice(['tcp', 'udp', 'any']),
                     ike_encr=rnd.sample(ENCR, rnd.choice([1, 2])), ike_integ=rnd.sample(INTEG, rnd.choice([1, 2])),
@@ -43,6 +43,12 @@ def history_configs(rnd, n):
         if order == 'reversed':
             for key in ('ike_dh', 'child_encr', 'child_integ', 'child_dh', 'ike_encr', 'ike_integ', 'ike_prf'):
                 b[key] = list(reversed(a[key]))
+        elif order == 'subset':
+            # the requester offers only what the responder likes LEAST: the negotiated algorithm is not the first of the responder's own lists
+            for key in ('child_encr', 'child_integ', 'ike_encr', 'ike_integ', 'ike_prf'):
+                b[key] = list(a[key])
+                a[key] = [a[key][-1]]
+            b['ike_dh'], b['child_dh'] = list(a['ike_dh']), list(a['child_dh'])
         # ports mirror: A's peer_port is B's my_port
         b['peer_port'], b['my_port'] = 0, a['peer_port']
         out.append({'A': a, 'B': b})
